@@ -430,6 +430,20 @@ func runC02(r *core.Run, tier string) {
 		variants = append(variants, &c02Variant{base: -1, mask: 1<<len(f.Params) - 1, src: fo.Print(vp, nil), name: f.Name, params: pnames, want: normSig(hm.GoSignature(f.Name, pnames, sc))})
 		r.Count("constraint_shape_functions", 1)
 	}
+	// hand-written probes: two instantiations of one generic type whose underscore-joined spellings
+	// coincide (P2<Qa_Qb, Qc> / P2<Qa, Qb_Qc>); a field / payload read from each has its own type
+	{
+		types := "type Qa_Qb = {Fqab: int}\n\ntype Qc = {Fqc: int}\n\ntype Qa = {Fqa: string}\n\ntype Qb_Qc = {Fqbc: int}\n\ntype P2<T, U> = {P2a: T; P2b: U}\n\ntype Pu2<T, U> =\n| Pu2a of T\n| Pu2b of U\n\n"
+		probes := []struct{ name, body, want string }{
+			{"probeKeyA", "let probeKeyA (p:P2<Qa_Qb, Qc>) (q:P2<Qa, Qb_Qc>) =\n  (p.P2a, q.P2a)\n", "func probeKeyA(p P2[Qa_Qb, Qc], q P2[Qa, Qb_Qc]) frt.Tuple2[Qa_Qb, Qa]"},
+			{"probeKeyB", "let probeKeyB (q:P2<Qa, Qb_Qc>) (p:P2<Qa_Qb, Qc>) =\n  (p.P2b, q.P2b)\n", "func probeKeyB(q P2[Qa, Qb_Qc], p P2[Qa_Qb, Qc]) frt.Tuple2[Qc, Qb_Qc]"},
+			{"probeKeyU", "let probeKeyU (p:Pu2<Qa_Qb, Qc>) (q:Pu2<Qa, Qb_Qc>) (dx:Qa_Qb) (dy:Qa) =\n  let x =\n    match p with\n    | Pu2a v -> v\n    | Pu2b _ -> dx\n  let y =\n    match q with\n    | Pu2a v -> v\n    | Pu2b _ -> dy\n  (x, y)\n", "func probeKeyU(p Pu2[Qa_Qb, Qc], q Pu2[Qa, Qb_Qc], dx Qa_Qb, dy Qa) frt.Tuple2[Qa_Qb, Qa]"},
+		}
+		for _, pb := range probes {
+			variants = append(variants, &c02Variant{base: -1, mask: 1, src: "package main\n\nimport frt\n\n" + types + pb.body, name: pb.name, want: normSig(pb.want)})
+			r.Count("hand_written_signature_probes", 1)
+		}
+	}
 	// transpile every variant alone
 	base := env.Dir("c02")
 	scratch.Parallel(len(variants), 16, func(i int) {
